@@ -295,7 +295,7 @@ func chainRunOnce(s *Summary, c *chainCase, sp chainSplit) {
 	func() {
 		defer func() { regPanic = recover() }()
 		opts := []func(*rux.Router){}
-		if c.Kind == "notallowed" {
+		if c.Kind == "notallowed" || c.Kind == "na-default" {
 			opts = append(opts, rux.HandleMethodNotAllowed)
 		}
 		r = rux.New(opts...)
@@ -315,7 +315,11 @@ func chainRunOnce(s *Summary, c *chainCase, sp chainSplit) {
 				r.Use(h)
 			}
 			var rt *rux.Route
-			r.Group("/g", func() {
+			outerPrefix := "/g"
+			if (sp.gBefore+sp.later)%3 == 2 { // sometimes the outer group has the root prefix: it is a group all the same
+				outerPrefix, path = "/", "/h/x"
+			}
+			r.Group(outerPrefix, func() {
 				r.Group("/h", func() {
 					for _, h := range inUse { // one Use call per handler: the group chain gets spare capacity
 						r.Use(h)
@@ -340,10 +344,15 @@ func chainRunOnce(s *Summary, c *chainCase, sp chainSplit) {
 			r.Use(hs[k/2 : k]...)
 			r.GET("/other", nopHandler)
 			path = "/missing"
+		case "na-default": // all handlers are global middleware around the DEFAULT 405 handler; a custom NotFound is installed too
+			r.Use(hs...)
+			r.NotFound(func(cx *rux.Context) { cur.log = append(cur.log, []any{"in", -2, false}) })
+			r.POST("/g/h/x", nopHandler)
 		case "notallowed":
 			k := (n - 1) / 2
 			r.Use(hs[:k/2]...)
 			r.NotAllowed(hs[k:]...)
+			r.NotFound(func(cx *rux.Context) { cur.log = append(cur.log, []any{"in", -2, false}) }) // must not answer a 405
 			r.Use(hs[k/2 : k]...)
 			r.POST("/g/h/x", nopHandler)
 		}
@@ -422,7 +431,7 @@ func chainRunOnce(s *Summary, c *chainCase, sp chainSplit) {
 			return
 		}
 	}
-	if c.CheckW {
+	if c.CheckW && c.Kind != "na-default" {
 		wantU := normLog(c.Under)
 		gotU := run.rw.calls
 		if !(len(gotU) == 0 && len(wantU) == 0) && !reflect.DeepEqual(gotU, wantU) {
